@@ -144,7 +144,17 @@ def gen_history(rng, cfg=None):
             # is silent about which of them is "the" Manifest
             clash = any(os.path.dirname(mp) == d for mp in info['manifests'])
             if p not in info['manifests'] and p != 'Manifest' and (not clash or (d == '' and rng.random() < 0.3)):
-                tree = tree + [{'p': p, 'k': 'file', 'c': rng.choice(['junk that is no Manifest\n', 'DATA x\n', ''])}]
+                # (also: text that starts out as a well-formed Manifest and turns into junk after some entries)
+                here_ = [os.path.basename(t['p']) for t in tree if os.path.dirname(t['p']) == d and t.get('k', 'file') == 'file'
+                         and 'c' in t and not any(ch in os.path.basename(t['p']) for ch in ' \t\\\n') and os.path.basename(t['p']).isascii()]
+                if here_ and rng.random() < 0.5:
+                    # ... a damaged copy / merge conflict: entries for a vanished file and for a file that is there (stale digest),
+                    # then a conflict marker
+                    tree = tree + [{'p': p, 'k': 'file', 'c': 'DATA zz-gone 0\nDATA %s 5 MD5 %s\n<<<<<<< HEAD\nDATA other 3\n' % (rng.choice(here_), '0' * 32)}]
+                else:
+                    tree = tree + [{'p': p, 'k': 'file', 'c': rng.choice(['junk that is no Manifest\n', 'DATA x\n', '',
+                                                                          'DATA zz-listed-by-junk 1 MD5 00\nthis line is junk\n',
+                                                                          'IGNORE zz-y\nDATA zz-z 3 SHA256 00\nDATA broken\n'])}]
         # stale explicit entries: wrong size / digest, vanished file
         if rng.random() < 0.3 and manifests:
             m = rng.choice(manifests)
